@@ -915,3 +915,163 @@ Section XGates.
         cbn [map zsum fold_right List.length]. rewrite tuple_sign_single, Hnp. rewrite Z.add_0_r. reflexivity.
   Qed.
 End XGates.
+
+(* ------------------------------------------------------------------ the distribution computed from measurements *)
+Lemma add_count_keys k c d k' : In k' (map fst (add_count k c d)) -> k' = k \/ In k' (map fst d).
+Proof.
+  induction d as [|[k0 c0] d IH]; simpl; [intuition congruence|].
+  destruct (String.eqb k k0); simpl; [tauto|]. intros [H|H]; [tauto|]. destruct (IH H); tauto.
+Qed.
+
+Lemma fold_counts_keys shots : forall d k',
+  In k' (map fst (fold_left (fun d t => add_count (tuple_to_bitstring t) 1%Z d) shots d)) ->
+  In k' (map fst d) \/ In k' (map tuple_to_bitstring shots).
+Proof.
+  induction shots as [|t r IH]; intros d k' H; cbn [fold_left map In] in *; [left; exact H|].
+  destruct (IH _ _ H) as [H1|H1]; [|tauto]. destruct (add_count_keys _ _ _ _ H1); [subst; tauto|tauto].
+Qed.
+
+(* every key of the distribution computed from measurements is one of the measured tuples, position by position *)
+Lemma get_distribution_keys shots dist k p : get_distribution shots = Some dist -> In (k, p) dist -> In k shots.
+Proof.
+  intros Hd Hin. unfold get_distribution in Hd. destruct shots as [|t0 r0] eqn:Es; [discriminate|]. rewrite <- Es in *.
+  inversion Hd; subst dist; clear Hd. apply in_map_iff in Hin. destruct Hin as [[ks c] [E Hkc]]. cbn [fst snd] in E.
+  inversion E; subst k p; clear E.
+  assert (Hk : In ks (map fst (get_counts shots))) by (apply in_map_iff; exists (ks, c); split; [reflexivity|exact Hkc]).
+  unfold get_counts in Hk. apply fold_counts_keys in Hk. destruct Hk as [[]|Hk].
+  apply in_map_iff in Hk. destruct Hk as [t [<- Ht]]. unfold tuple_to_bitstring. rewrite bits_of_str_of_bits. exact Ht.
+Qed.
+
+(* ------------------------------------------------------------------ circuits of classical gates *)
+Require Import OQ.Circ.LiftAlgebra.
+
+Section ClassicalProofs.
+  Variable K : cring.
+  Add Ring Kring3 : (c_ring K).
+  Local Open Scope cr_scope.
+
+  (* column j of the lifted gate: the phase of the bits read at the gate's qubits (in the gate's order), in the row
+     whose bits are those of j with f's result written back to the same positions *)
+  Lemma lift_classical_entry n (f : list bool -> list bool) (ph : list bool -> K) qs i j :
+    NoDup qs -> Forall (fun q => (q < n)%nat) qs ->
+    (forall b, List.length b = List.length qs -> List.length (f b) = List.length qs) ->
+    (i < 2 ^ n)%nat -> (j < 2 ^ n)%nat ->
+    lift_spec (cmat (List.length qs) f ph) qs n i j
+    = sbasis (ph (select qs (bits n j))) (val (merge qs (f (select qs (bits n j))) (bits n j))) i.
+  Proof.
+    intros Hnd Hr Hf Hi Hj. unfold lift_spec, cmat, sbasis.
+    set (x := bits n i). set (y := bits n j). set (sy := select qs y).
+    assert (Hlx : List.length x = n) by apply bits_length.
+    assert (Hly : List.length y = n) by apply bits_length.
+    assert (Hlsy : List.length sy = List.length qs) by apply select_length.
+    assert (Hb : bits (List.length qs) (val sy) = sy) by (pose proof (bits_val sy) as H; rewrite Hlsy in H; exact H).
+    rewrite Hb. set (m := merge qs (f sy) y).
+    assert (Hlm : List.length m = n) by (subst m; rewrite merge_length; exact Hly).
+    assert (Hbm : bits n (val m) = m) by (pose proof (bits_val m) as H; rewrite Hlm in H; exact H).
+    assert (Hry : Forall (fun q => (q < List.length y)%nat) qs) by (rewrite Hly; exact Hr).
+    destruct (Nat.eqb_spec i (val m)) as [E|Hne].
+    - assert (Hx : x = m) by (subst x; rewrite E; exact Hbm).
+      assert (Hsel : select qs m = f sy) by exact (select_merge qs (f sy) y Hnd Hry (Hf sy Hlsy)).
+      assert (Hag : agree_off qs m y = true) by (rewrite agree_off_sym; exact (agree_off_merge qs (f sy) y)).
+      rewrite Hx, Hsel, Hag, Nat.eqb_refl. cbn [ind]. ring.
+    - destruct (agree_off qs x y) eqn:Ha; cbn [ind]; [|ring].
+      destruct (Nat.eqb_spec (val (select qs x)) (val (f sy))) as [Ev|_]; [|ring].
+      exfalso. apply Hne. apply val_inj in Ev; [|rewrite select_length, Hf by exact Hlsy; reflexivity].
+      rewrite agree_off_sym in Ha. assert (Hxm : x = m) by exact (merge_unique qs (f sy) y x Hnd Hry Ha Ev).
+      rewrite <- Hxm. unfold x. symmetry. apply val_bits_lt. exact Hi.
+  Qed.
+
+  Lemma mvec_sbasis d (M : Mat K) amp j i : (j < d)%nat -> mvec d M (sbasis amp j) i = M i j * amp.
+  Proof.
+    intro Hj. unfold mvec. rewrite (rsum_single K d j).
+    - unfold sbasis. rewrite Nat.eqb_refl. reflexivity.
+    - exact Hj.
+    - intros k _ Hk. unfold sbasis. destruct (Nat.eqb_spec k j); [congruence|ring].
+  Qed.
+
+  Lemma wf_cgate n (g : cgate K) : cgate_ok n g -> wf_gate n (mk_gateapp (cg_mat g) (cg_qs g)).
+  Proof. intros (H1 & H2 & H3 & _). unfold wf_gate. cbn [g_qs]. repeat split; assumption. Qed.
+
+  (* one gate through the code mirror of GateOperation.apply *)
+  Lemma apply_classical n (g : cgate K) (st : list bool * K) (v : Vec K) : cgate_ok n g -> List.length (fst st) = n ->
+    vec_eq (2 ^ n) v (sbasis (snd st) (val (fst st))) ->
+    vec_eq (2 ^ n) (apply_op n (cg_op g) v) (sbasis (snd (bstep g st)) (val (fst (bstep g st)))) /\
+    List.length (fst (bstep g st)) = n.
+  Proof.
+    intros Hok Hl Hv. destruct st as [t amp]. cbn [fst snd] in *. unfold bstep. cbn [fst snd].
+    split; [|rewrite merge_length; exact Hl].
+    assert (Hj : (val t < 2 ^ n)%nat) by (rewrite <- Hl; apply val_lt).
+    assert (Hbt : bits n (val t) = t) by (pose proof (bits_val t) as H; rewrite Hl in H; exact H).
+    intros i Hi.
+    rewrite (apply_op_matrix K n (cg_op g) v (sbasis amp (val t)) Hv i Hi). cbn [op_matrix cg_op].
+    rewrite (mvec_compat K (2 ^ n) _ (gate_spec n (mk_gateapp (cg_mat g) (cg_qs g))) (sbasis amp (val t)) (sbasis amp (val t))
+               (lifted_spec K n _ (wf_cgate n g Hok)) ltac:(intros k _; reflexivity) i Hi).
+    rewrite mvec_sbasis by exact Hj. unfold gate_spec. cbn [g_mat g_qs]. unfold cg_mat.
+    destruct Hok as (_ & Hnd & Hr & Hf).
+    rewrite lift_classical_entry by assumption. rewrite Hbt. unfold sbasis.
+    destruct (Nat.eqb i (val (merge (cg_qs g) (cg_f g (select (cg_qs g) t)) t))); ring.
+  Qed.
+
+  Lemma classical_run n (gs : list (cgate K)) : forall (st : list bool * K) (v : Vec K),
+    Forall (cgate_ok n) gs -> List.length (fst st) = n -> vec_eq (2 ^ n) v (sbasis (snd st) (val (fst st))) ->
+    vec_eq (2 ^ n) (run n (map cg_op gs) v) (sbasis (snd (brun gs st)) (val (fst (brun gs st)))) /\
+    List.length (fst (brun gs st)) = n.
+  Proof.
+    induction gs as [|g gs IH]; intros st v Hok Hl Hv; [split; [exact Hv|exact Hl]|].
+    pose proof (Forall_inv Hok) as Hg. pose proof (Forall_inv_tail Hok) as Hgs.
+    cbn [map]. change (run n (cg_op g :: map cg_op gs) v) with (run n (map cg_op gs) (apply_op n (cg_op g) v)).
+    change (brun (g :: gs) st) with (brun gs (bstep g st)).
+    destruct (apply_classical n g st v Hg Hl Hv) as [Hv' Hl']. apply IH; assumption.
+  Qed.
+
+  Lemma zero_state_sbasis n : vec_eq (2 ^ n) (zero_state (K:=K)) (sbasis c1 (val (repeat false n))).
+  Proof. intros i _. unfold zero_state, sbasis. rewrite val_repeat_false. reflexivity. Qed.
+
+  Lemma norm2_sbasis amp j i : norm2 (sbasis (K:=K) amp j i) = if Nat.eqb i j then norm2 amp else c0.
+  Proof. unfold norm2, sbasis. destruct (Nat.eqb i j); [reflexivity|ring]. Qed.
+
+  Lemma expectation_sbasis n (c : K) S amp j : NoDup S -> Forall (fun q => (q < n)%nat) S -> (j < 2 ^ n)%nat ->
+    expectation (2 ^ n) (den n (zterm c S)) (sbasis amp j) = norm2 amp * eigenvalue c S (bits n j).
+  Proof.
+    intros Hnd Hr Hj. rewrite z_expectation_eigen_avg_lemma by assumption.
+    rewrite (rsum_single K (2 ^ n) j).
+    - rewrite norm2_sbasis, Nat.eqb_refl. reflexivity.
+    - exact Hj.
+    - intros k _ Hk. rewrite norm2_sbasis. destruct (Nat.eqb_spec k j); [congruence|ring].
+  Qed.
+
+  Lemma table_gate_ok n qs perm exps : qs <> [] -> NoDup qs -> Forall (fun q => (q < n)%nat) qs ->
+    cgate_ok n (table_gate (K:=K) qs perm exps).
+  Proof. intros H1 H2 H3. unfold cgate_ok, table_gate. cbn [cg_qs cg_f]. repeat split; try assumption. intros b _. apply bits_length. Qed.
+
+  (* a circuit of classical gates of any arity on any duplicate-free qubit orders, on a register of any width: the
+     state is a phase times the basis vector of the tuple obtained by following the gates on the tuple; all views
+     show that tuple *)
+  Lemma classical_circuit_views_lemma n (gs : list (cgate K)) : (1 <= n)%nat -> Forall (cgate_ok n) gs ->
+    let st := brun gs (repeat false n, c1) in
+    let psi := run n (map cg_op gs) zero_state in
+    let t := fst st in
+    let j := val t in
+    vec_eq (2 ^ n) psi (sbasis (snd st) j) /\ List.length t = n /\
+    bitstring_to_tuple (outcome_key n j) = t /\
+    nth j (product_bits n) [] = t /\
+    (forall n_samples, (1 <= n_samples)%Z ->
+       run_and_measure n n_samples (repeat j (Z.to_nat n_samples)) = Some (repeat t (Z.to_nat n_samples))) /\
+    (forall (c : K) S, NoDup S -> Forall (fun q => (q < n)%nat) S ->
+       expectation (2 ^ n) (den n (zterm c S)) psi = norm2 (snd st) * eigenvalue c S t).
+  Proof.
+    intros Hn Hok st psi t j.
+    destruct (classical_run n gs (repeat false n, c1) zero_state Hok (repeat_length false n) (zero_state_sbasis n)) as [Hpsi Hlt].
+    fold st in Hpsi, Hlt. fold psi t j in Hpsi. fold t in Hlt.
+    assert (Hj : (j < 2 ^ n)%nat) by (subst j; rewrite <- Hlt; apply val_lt).
+    assert (Hb : bits n j = t) by (subst j; pose proof (bits_val t) as H; rewrite Hlt in H; exact H).
+    split; [exact Hpsi|]. split; [exact Hlt|]. split; [|split; [|split]].
+    - rewrite key_roundtrip_lemma by assumption. exact Hb.
+    - rewrite product_order_lemma by assumption. exact Hb.
+    - intros ns Hns. rewrite run_and_measure_spec; try assumption.
+      + rewrite map_repeat_eq, Hb. reflexivity.
+      + apply Forall_forall. intros k Hk. apply repeat_spec in Hk. subst k. exact Hj.
+    - intros c S Hnd Hr. rewrite (expectation_compat K (2 ^ n) _ psi (sbasis (snd st) j) Hpsi).
+      rewrite expectation_sbasis by assumption. rewrite Hb. reflexivity.
+  Qed.
+End ClassicalProofs.
